@@ -239,6 +239,40 @@ fn mixed_tables_circuit(n32: usize, depth: usize, which: usize) -> Result<p3_cir
     b.build().map_err(|e| format!("{e:?}"))
 }
 
+/// Dependent fusion candidates: per group, L products are created first, then a sum c = r + s,
+/// then the running sums y1 = m1 + c, y2 = m2 + y1, ... (or the same expressions interleaved).
+/// Whether a mul+add pair may be fused depends on whether the pair before it was, so a pass that
+/// visits candidates in map order has something to get wrong here.
+fn cascade_circuit(rng: &mut Rng) -> Result<p3_circuit::Circuit<<crate::uni::Kb4 as CircuitUni>::EF>, String> {
+    type EF = <crate::uni::Kb4 as CircuitUni>::EF;
+    let mut b = p3_circuit::CircuitBuilder::<EF>::new();
+    for _ in 0..rng.range(6, 16) {
+        let l = rng.range(2, 4);
+        let products_first = rng.chance(3, 4);
+        let mut prods = Vec::new();
+        if products_first {
+            for _ in 0..l {
+                let (p, q) = (b.public_input(), b.public_input());
+                prods.push(b.mul(p, q));
+            }
+        }
+        let (r, s2) = (b.public_input(), b.public_input());
+        let mut acc = b.add(r, s2);
+        for i in 0..l {
+            let m = if products_first {
+                prods[i]
+            } else {
+                let (p, q) = (b.public_input(), b.public_input());
+                b.mul(p, q)
+            };
+            acc = b.add(m, acc);
+        }
+        let out = b.public_input();
+        b.connect(acc, out);
+    }
+    b.build().map_err(|e| format!("{e:?}"))
+}
+
 /// (circuit digest, key digest) of one non-primitive-table circuit family member under one
 /// hash-iteration order.
 fn npo_item(family: &str, seed: u64, hash_seed: u64) -> Result<(u64, u64), String> {
@@ -248,6 +282,7 @@ fn npo_item(family: &str, seed: u64, hash_seed: u64) -> Result<(u64, u64), Strin
     let mut rng = Rng::new(seed, "C18-npo", 0);
     let npo = BuilderOpts { poseidon: true, recompose: true };
     let (circuit, cfg) = match family {
+        "cascade" => (cascade_circuit(&mut rng)?, ProverCfg::default()),
         "mixed" => (mixed_tables_circuit(rng.range(1, 3), rng.range(2, 4), rng.usize_below(3))?, ProverCfg { npo, poseidon_both: true, recompose_lanes: 2, ..ProverCfg::default() }),
         "a4" => {
             let shape = c08::draw_shape(&mut rng, "U-KB4-A4", Tier::Quick);
@@ -441,7 +476,7 @@ pub fn main(ctx: &Ctx) -> i32 {
     // non-primitive tables: library Merkle openings (arity 2 over Poseidon2 and Poseidon1, arity 4)
     // and a circuit with two Poseidon2 tables reading each other's outputs, compiled and
     // key-generated under several iteration orders
-    for (fi, family) in ["a2", "a4", "p1", "mixed"].iter().enumerate() {
+    for (fi, family) in ["a2", "a4", "p1", "mixed", "cascade"].iter().enumerate() {
         let k: u64 = ctx.tier.pick(4, 12);
         for item in 0..ctx.tier.pick(2u64, 6) {
             let seed = mix(mix(ctx.seed, 0x6e70 + fi as u64), item);
